@@ -2,6 +2,7 @@
 import TaRs.Lemmas.Core.ExponentialMovingAverage
 import TaRs.Gen.ExponentialMovingAverage
 import TaRs.Lemmas.RsLemmas
+import TaRs.Lemmas.Total.ExponentialMovingAverage
 namespace TaRs.Gen.ExponentialMovingAverage
 open TaRs TaRs.Rs
 variable {F : Type} [Scalar F]
@@ -20,16 +21,5 @@ theorem step_period (s : ExponentialMovingAverage F) (x : F) : (step s x).period
   unfold step; split <;> rfl
 theorem step_k (s : ExponentialMovingAverage F) (x : F) : (step s x).k = s.k := by
   unfold step; split <;> rfl
-
-theorem next_total (s : ExponentialMovingAverage F) (x : F) (h : WF s) :
-    ∃ r, s.next x = some r ∧ WF r.1 ∧ r.1.period = s.period := by
-  refine ⟨_, next_eq s x, ⟨?_, ?_⟩, step_period s x⟩
-  · rw [step_period]; exact h.pos
-  · rw [step_k, step_period]; exact h.kdef
-
-theorem nextBar_eq (s : ExponentialMovingAverage F) (b : Bar F) : s.nextBar b = s.next b.close := by
-  unfold nextBar
-  try simp only [gen_helper]
-  cases h : s.next b.close <;> simp [h]
 
 end TaRs.Gen.ExponentialMovingAverage
